@@ -175,16 +175,16 @@ ErrResp(e) == [err |-> e, cs |-> <<>>, next |-> NoKey, total |-> 0]
 PosOf(es, c) == CHOOSE i \in 1..Len(es) : es[i].c = c
 
 (* types/query FilteredPaginate and Paginate (Paginate = every key is a hit).  keys: the entries of the prefix    *)
-(* store in key order.  Key mode: iterate from the key; the key FOLLOWING the limit-th hit (whether it matches or *)
+(* store in key order.  Key mode: iterate from the key (or the next larger one); the key FOLLOWING the limit-th hit (whether it matches or *)
 (* not) is next_key; no total.  Offset mode: the whole store is scanned, hits offset+1..offset+limit are          *)
 (* returned, next_key is the key of hit offset+limit+1.                                                          *)
 (* AS FOUND with count_total the scan continues after that hit and next_key is overwritten with every key        *)
 (* visited while the hit count stays offset+limit+1, i.e. with the non-matching keys that follow it.             *)
-Paginate(keys, Hit(_), pg, impl) ==
+Paginate(store, keys, Hit(_), pg, impl) ==
   IF pg.mode = "both" THEN ErrResp("Internal")
   ELSE IF pg.mode = "key" THEN
     LET lim == EffLimit(pg)
-        ks  == SubSeq(keys, PosOf(keys, pg.key), Len(keys))
+        ks  == SelectSeq(keys, LAMBDA e : ~QKeyLess(store, e.c, pg.key))     \* Iterator(key, nil): from the first key >= the given one
         hs  == SelectSeq(ks, Hit)
         nxt == IF Len(hs) < lim THEN NoKey
                ELSE LET p == PosOf(ks, hs[lim].c) IN IF p < Len(ks) THEN ks[p + 1].c ELSE NoKey
@@ -204,7 +204,7 @@ Paginate(keys, Hit(_), pg, impl) ==
 ListOpI(X, kind, f, pg, impl) ==
   IF kind \in IterKinds THEN LET keys == Ents(X, KStore(kind)) IN [err |-> "", cs |-> CsOfEnts(keys), next |-> NoKey, total |-> Len(keys)]
   ELSE IF ~StateOK(kind, f) THEN ErrResp("InvalidArgument")
-  ELSE LET page == Paginate(Ents(X, KStore(kind)), LAMBDA e : MatchOp(kind, e, f, impl), pg, impl) IN
+  ELSE LET page == Paginate(KStore(kind), Ents(X, KStore(kind)), LAMBDA e : MatchOp(kind, e, f, impl), pg, impl) IN
        IF page.err = "" /\ \E i \in 1..Len(page.cs) : JoinMissing(X, kind, page.cs[i]) THEN ErrResp("Internal") ELSE page
 
 ListOp(X, kind, f, pg) == ListOpI(X, kind, f, pg, Impl)
@@ -415,5 +415,33 @@ GetCoords(X, kind) ==
      \cup {[c EXCEPT ![i] = abs[i]] : c \in pres, i \in flds}
      \cup {[c EXCEPT ![i] = b] : c \in pres, i \in flds \cap {1, 5}, b \in {"!", ""}}
 Gets(X, kind) == {[op |-> "get", kind |-> kind, c |-> c] : c \in GetCoords(X, kind)}
+
+-----------------------------------------------------------------------------
+(* part 5: a walk WHILE THE CHAIN MOVES.  Between two pages of a paging client any number of transactions may be   *)
+(* committed; page i is answered in the state of context xs[i].  ww = [pages |-> <<[pg, r], ...>>, truncated].     *)
+(* What key paging gives the client then (and what the provider's lease listing relies on): no record twice, key   *)
+(* order over the whole walk, every page sound for ITS state, and every record that exists and matches at every    *)
+(* page of the walk is returned (exactly once).                                                                    *)
+MatchSet(X, kind, f) == SeqRange(CsOfEnts(Full(X, kind, f)))
+P_WalkStable(q, xs, ww) ==
+  LET n   == Len(ww.pages)
+      st  == KStore(q.kind)
+      got == Concat([i \in 1..n |-> CsOf(ww.pages[i].r)])
+      stable == FoldLeft(LAMBDA acc, i : acc \cap MatchSet(xs[i], q.kind, q.f), MatchSet(xs[1], q.kind, q.f), [i \in 1..(n - 1) |-> i + 1])
+  IN
+  (StateOK(q.kind, q.f) /\ \A i \in 1..n : JoinsPresent(xs[i], q.kind)) =>
+     /\ ~ww.truncated
+     /\ \A i \in 1..n : ww.pages[i].r.err = ""
+     /\ ww.pages[n].r.next = NoKey
+     /\ \A i \in 1..n : P_PageSound(xs[i], q.kind, q.f, ww.pages[i].pg, ww.pages[i].r)
+     /\ \A i \in 1..(Len(got) - 1) : QKeyLess(st, got[i], got[i + 1])
+     /\ stable \subseteq SeqRange(got)
+
+\* walks tried under writes: no filter, every state name, every owner; limit 1 and 2
+WWKinds == {"deployments", "orders", "bids", "leases", "providers", "audits"}
+WWFilters(X, kind) ==
+  {NoFilter} \cup {[NoFilter EXCEPT !.state = s] : s \in ValidStates(kind)}
+  \cup (IF StateFiltered(kind) THEN {FFrom(e.c, {1}, "") : e \in EntSet(X, KStore(kind))} ELSE {})
+WWalks(X) == UNION {{[op |-> "wwalk", kind |-> k, f |-> f, limit |-> n, ct |-> FALSE] : f \in WWFilters(X, k), n \in {1, 2}} : k \in WWKinds}
 
 =============================================================================
